@@ -22,6 +22,12 @@ static std::string ser_cur() {
 }
 
 // raw: the value in 64-bit two's complement (signed kinds: sign-extended, in range), floats: bit pattern
+// fills the stack region the next call will use with a pattern, so that an accessor reading a local it did not initialise completely
+// sees all-ones / alternating garbage instead of whatever the previous call happened to leave there
+__attribute__((noinline)) static void poison_stack(uint8_t pat) {
+    volatile uint8_t junk[768];
+    for (size_t i = 0; i < sizeof junk; i++) junk[i] = pat;
+}
 static bool check_acc(unsigned idx, unsigned off, uint64_t raw) {
     const bf_accessor &a = bf_accessors[idx];
     g_cur.mode = 0; g_cur.idx = idx; g_cur.off = off; g_cur.v = raw;
@@ -45,6 +51,7 @@ static bool check_acc(unsigned idx, unsigned off, uint64_t raw) {
     for (unsigned i = 0; i < off; i++) if (s.blk[i] != fillb) { ok = F("set-neighbour", "octet before the value changed"); break; }
     // load from the expected image (independent of what set wrote)
     memcpy(s.blk + off, expect, nb);
+    poison_stack((uint8_t)(0xff ^ (uint8_t)(raw >> 56)));
     uint64_t got = a.ref(s.blk + off);
     if (got != canon) ok = F("ref-value", vp::fmt("loaded %llx expected %llx", (unsigned long long)got, (unsigned long long)canon));
     return ok;
